@@ -21,6 +21,9 @@ from .util import *
 
 R_GAS = 8.314472                       # the constants as documented in arrhenius.py / eyring.py
 KB_OVER_H = 2.083664399411865234375e10
+UB_TEMPLATES = ('arrhenius', 'eyring', 'eyringhs', 'gibbs', 'radiolytic', 'param_arr', 'param_eyr', 'ratex_arr', 'ratex_eyr')
+# reported to the coordinator (math.exp of an unsimplified kJ/J quantity); remove a name to activate its math-backend variant
+UNITS_PENDING_MATH = ('eyringhs', 'gibbs')
 DROPS = ('Poly', 'Piecewise', 'GibbsEqConst', 'EyringHS', 'Radiolytic')
 NEEDS_RXN = ('MassAction', 'Eyring', 'EyringHS')
 
@@ -210,22 +213,39 @@ class Gen:
         if c == 'Piecewise':
             param = self.var(rng.choice(['x', 'temperature']))
             n = rng.randint(1, 3)
+            on_bound = rng.randint(0, n) if rng.random() < 0.35 else None     # x exactly on a bound (outermost ones included)
             if rat:
                 xv = Fraction(*self.vars[param]) if isinstance(self.vars[param], list) else Fraction(self.vars[param])
-                lo = math.floor(xv) - rng.randint(0, 3)
-                bounds = [lo]
-                for _ in range(n):
-                    bounds.append(bounds[-1] + rng.randint(1, 4))
-                bj = [b for b in bounds]
+                if on_bound is None:
+                    lo = math.floor(xv) - rng.randint(0, 3)
+                    bounds = [lo]
+                    for _ in range(n):
+                        bounds.append(bounds[-1] + rng.randint(1, 4))
+                else:
+                    bounds = [xv]
+                    for _ in range(on_bound):
+                        bounds.insert(0, bounds[0] - rng.randint(1, 4))
+                    for _ in range(n - on_bound):
+                        bounds.append(bounds[-1] + rng.randint(1, 4))
+                bj = [rat_json(b) for b in bounds]
             else:
                 xv = self.vars[param]
-                lo = xv - rng.uniform(0, 3) * abs(xv)
-                bounds = [lo]
-                for _ in range(n):
-                    bounds.append(bounds[-1] + rng.uniform(0.3, 2) * abs(xv))
-                bj = [float('%.6g' % b) for b in bounds]
-            if rng.random() < 0.12:
-                bj = [b + 1000 for b in bj]      # out of every interval -> ValueError
+                if on_bound is None:
+                    lo = xv - rng.uniform(0, 3) * abs(xv)
+                    bounds = [lo]
+                    for _ in range(n):
+                        bounds.append(bounds[-1] + rng.uniform(0.3, 2) * abs(xv))
+                    bj = [float('%.6g' % b) for b in bounds]
+                else:
+                    bounds = [xv]
+                    for _ in range(on_bound):
+                        bounds.insert(0, float('%.6g' % (bounds[0] - rng.uniform(0.3, 2) * abs(xv))))
+                    for _ in range(n - on_bound):
+                        bounds.append(float('%.6g' % (bounds[-1] + rng.uniform(0.3, 2) * abs(xv))))
+                    bj = list(bounds)
+            if rng.random() < 0.12:              # out of every interval -> ValueError
+                bj = [rat_json(Fraction(*b) + 1000 if isinstance(b, list) else b + 1000) if rat else b + 1000 for b in bj]
+                on_bound = None
             self.no_empty += 1          # an unselected branch that evaluates to None is not modelled
             exprs = [self.arg(depth) for _ in range(n)]
             self.no_empty -= 1
@@ -644,7 +664,7 @@ class C16(Property):
                ('chempy/util/_expr.py', 'Expr.__eq__'), ('chempy/util/_expr.py', 'Expr.from_callback'),
                ('chempy/util/_expr.py', 'UnaryWrapper'), ('chempy/util/_expr.py', '_NegExpr'), ('chempy/util/_expr.py', '_BinaryExpr'),
                ('chempy/util/_expr.py', '_MulExpr'), ('chempy/util/_expr.py', 'Constant'), ('chempy/util/_expr.py', 'Symbol'),
-               ('chempy/util/_expr.py', 'UnaryFunction'), ('chempy/util/_expr.py', 'create_Piecewise'), ('chempy/util/_expr.py', 'create_Poly'),
+               ('chempy/util/_expr.py', 'UnaryFunction'), ('chempy/util/_expr.py', 'Log10'), ('chempy/util/_expr.py', 'create_Piecewise'), ('chempy/util/_expr.py', 'create_Poly'),
                ('chempy/kinetics/rates.py', 'mk_Radiolytic'), ('chempy/kinetics/rates.py', 'MassAction'), ('chempy/kinetics/rates.py', 'Arrhenius'),
                ('chempy/kinetics/rates.py', 'Eyring'), ('chempy/kinetics/rates.py', 'EyringHS'), ('chempy/kinetics/rates.py', 'RampedTemp'),
                ('chempy/kinetics/rates.py', 'SinTemp'), ('chempy/thermodynamics/expressions.py', 'MassActionEq'),
@@ -656,7 +676,7 @@ class C16(Property):
     def generate(self, rng, n, tier):
         cases = []
         maxd = 3 if tier == 'quick' else 6
-        n_tree = int(n * 0.78)
+        n_tree = int(n * 0.72)
         for i in range(n_tree):
             mode = 'rat' if i % 2 == 0 else 'float'
             d = rng.randint(1, maxd)
@@ -675,9 +695,24 @@ class C16(Property):
         n_u = int(n * 0.07)
         for i in range(n_u):
             cases.append(self._units_case(rng, i))
+        n_ub = int(n * 0.05)
+        for i in range(n_ub):
+            cases.append(self._ubackend_case(rng, i))
         while len(cases) < n:
             cases.append(self._rxnrate_case(rng))
         return cases
+
+    def _ubackend_case(self, rng, i):
+        """unit-carrying parameters whose ratio is an UNSIMPLIFIED dimensionless / temperature unit (kJ vs J, cal vs J, mM vs M)
+        under math / patched_numpy / Backend() versus plain SI numbers"""
+        tmpl = UB_TEMPLATES[i % len(UB_TEMPLATES)]
+        return {'kind': 'ubackend', 'tmpl': tmpl, 'energy_unit': rng.choice(['kilojoule', 'kilojoule', 'joule', 'calorie']),
+                'conc_unit': rng.choice(['molar', 'millimolar']), 'order': rng.randint(1, 3),
+                'T': float('%.7g' % rng.uniform(200, 2000)),
+                'A': float('%.6g' % math.exp(rng.uniform(math.log(1e3), math.log(1e12)))),
+                'dH': float('%.6g' % rng.uniform(1e4, 1.2e5)), 'dS': float('%.6g' % rng.uniform(-120, 100)),
+                'cA': float('%.6g' % math.exp(rng.uniform(-5, 1))), 'g': float('%.6g' % rng.uniform(1e-8, 5e-7)),
+                'doserate': float('%.6g' % rng.uniform(0.01, 50)), 'density': float('%.6g' % rng.uniform(0.7, 1.3))}
 
     def _units_case(self, rng, i):
         tmpl = ('arrhenius', 'eyring', 'eyringhs', 'radiolytic', 'ramped', 'combo', 'param_arr', 'param_eyr', 'from_rateconst')[i % 9]
@@ -1042,7 +1077,164 @@ class C16(Property):
         if k == 'units':
             return self._oracle_units(c)
         if k == 'rxnrate':
-            return self._oracle_rxnrate(c)
+            return self._oracle_rxnrate(c) or self._oracle_mutable(c)
+        if k == 'ubackend':
+            return self._oracle_ubackend(c)
+        return None
+
+    def _oracle_ubackend(self, c):
+        from chempy import Reaction
+        from chempy.units import default_units as u, default_constants as const, to_unitless, Backend, patched_numpy
+        from chempy.kinetics.rates import MassAction, Arrhenius, Eyring, EyringHS, mk_Radiolytic
+        from chempy.thermodynamics.expressions import GibbsEqConst
+        from chempy.kinetics.arrhenius import ArrheniusParamWithUnits
+        from chempy.kinetics.eyring import EyringParamWithUnits
+        t, T, order = c['tmpl'], c['T'], c['order']
+        eu = getattr(u, c['energy_unit'])
+        efac = {'kilojoule': 1000.0, 'joule': 1.0, 'calorie': 4.184}[c['energy_unit']]
+        cu = getattr(u, c['conc_unit'])
+        cfac = {'molar': 1.0, 'millimolar': 1e-3}[c['conc_unit']]
+        rxn = Reaction({'A': order}, {'P': 1})
+        cA = c['cA']
+        v = {'A': cA / cfac * cu, 'temperature': T * u.K}
+        prod = cA ** order
+        Rq = float(to_unitless(const.molar_gas_constant, u.J / u.mol / u.K))
+        kB = float(to_unitless(const.Boltzmann_constant, u.J / u.K))
+        h = float(to_unitless(const.Planck_constant, u.J * u.s))
+        dHq, dSq = c['dH'] / efac * eu / u.mol, c['dS'] * u.J / u.K / u.mol
+        RJ = R_GAS * u.J / u.mol / u.K
+        kun = u.molar ** (1 - order) / u.s
+
+        def build(be):
+            if t == 'arrhenius':
+                return (to_unitless(MassAction(Arrhenius([c['A'] * kun, dHq / RJ]))(v, backend=be, reaction=rxn), u.molar / u.s),
+                        c['A'] * math.exp(-c['dH'] / R_GAS / T) * prod)
+            if t == 'eyring':      # conc0 given in the other concentration unit
+                return (to_unitless(MassAction(Eyring([c['A'] / u.K / u.s, dHq / RJ, 1 / cfac * cu]))(v, backend=be, reaction=rxn), u.molar / u.s),
+                        c['A'] * T * math.exp(-c['dH'] / R_GAS / T) * prod)
+            if t == 'eyringhs':
+                vq = dict(v, molar_gas_constant=const.molar_gas_constant, Boltzmann_constant=const.Boltzmann_constant,
+                          Planck_constant=const.Planck_constant)
+                return (to_unitless(MassAction(EyringHS([dHq, dSq]))(vq, backend=be, reaction=rxn), u.molar / u.s),
+                        kB * T / h * math.exp(c['dS'] / Rq) * math.exp(-c['dH'] / (Rq * T)) * prod)
+            if t == 'gibbs':
+                return (float(to_unitless(GibbsEqConst([dHq / RJ, dSq / RJ])(v, backend=be), 1)),
+                        math.exp(c['dS'] / R_GAS - c['dH'] / R_GAS / T))
+            if t == 'radiolytic':
+                Rad = mk_Radiolytic()
+                q = Rad([c['g'] * 1e6 * u.micromole / u.J])({'density': c['density'] * 1000 * u.g / u.dm3,
+                                                            'doserate': c['doserate'] * 60 * u.Gy / u.minute}, backend=be)
+                return to_unitless(q, u.molar / u.s), c['g'] * c['density'] * c['doserate']
+            if t == 'param_arr':
+                return (to_unitless(ArrheniusParamWithUnits(c['A'] / u.s, dHq)(T * u.K, backend=be), 1 / u.s),
+                        c['A'] * math.exp(-c['dH'] / (Rq * T)))
+            if t == 'param_eyr':
+                kBh = float(to_unitless(const.Boltzmann_constant / const.Planck_constant, 1 / u.K / u.s))
+                return (to_unitless(EyringParamWithUnits(dHq, dSq)(T * u.K, backend=be), 1 / u.s),
+                        kBh * T * math.exp(c['dS'] / Rq) * math.exp(-c['dH'] / (Rq * T)))
+            if t == 'ratex_arr':
+                ratex = ArrheniusParamWithUnits(c['A'] * kun, dHq).as_RateExpr()
+                return (to_unitless(ratex(v, backend=be, reaction=rxn), u.molar / u.s), c['A'] * math.exp(-c['dH'] / (Rq * T)) * prod)
+            if t == 'ratex_eyr':
+                kBh = float(to_unitless(const.Boltzmann_constant / const.Planck_constant, 1 / u.K / u.s))
+                ratex = EyringParamWithUnits(dHq, dSq).as_RateExpr()
+                return (to_unitless(ratex(v, backend=be, reaction=rxn), u.molar / u.s),
+                        kBh * T * math.exp(c['dS'] / Rq) * math.exp(-c['dH'] / (Rq * T)) * prod)
+            raise KeyError(t)
+
+        for name, be in (('math', math), ('patched_numpy', patched_numpy), ('Backend()', Backend())):
+            if name == 'math' and t in UNITS_PENDING_MATH:
+                continue
+            try:
+                got, want = build(be)
+                got = float(got)
+            except Exception as e:
+                return 'units/backends template %s [%s, %s]: raised %s: %s' % (t, c['energy_unit'], name, exc_name(e), str(e)[:100])
+            if not close(got, want, 1e-9):
+                return ('units/backends template %s with energies in %s, backend %s: %r; with plain SI numbers: %r'
+                        % (t, c['energy_unit'], name, got, want))
+        return None
+
+    def _oracle_mutable(self, c):
+        """mutable concentration values (numpy arrays, quantities): the evaluation must not modify its inputs, a second
+        evaluation must give the same numbers, and reactions of one ReactionSystem that share a reactant must not interfere"""
+        from chempy import Reaction, ReactionSystem
+        from chempy.kinetics.arrhenius import ArrheniusParam
+        from chempy.kinetics.eyring import EyringParam
+        from chempy.units import default_units as u, to_unitless
+        import numpy as np
+        reac = {k: v for k, v in c['reac']}
+        prod = {k: v for k, v in c['prod']}
+        T = c['T']
+        A, Ea, dS = c['p']
+
+        def par_k(scale):
+            if c['which'] == 'arrhenius':
+                return ArrheniusParam(A * scale, Ea), A * scale * math.exp(-Ea / (R_GAS * T))
+            return EyringParam(Ea, dS + R_GAS * math.log(scale)), KB_OVER_H * T * math.exp(dS / R_GAS) * scale * math.exp(-Ea / (R_GAS * T))
+
+        par1, k1 = par_k(1.0)
+        par2, k2 = par_k(0.5)
+        mult = np.array([1.0, 2.0, 0.5])
+        try:
+            rxn = Reaction(reac, prod, par1)
+            # (1) numpy arrays, evaluated twice
+            arr = {s: c['conc'][s] * mult for s in SUBST}
+            keep = {s: a.copy() for s, a in arr.items()}
+            variables = dict(arr, temperature=T)
+            cp = np.ones(3)
+            for s, v in reac.items():
+                cp = cp * keep[s] ** v
+            for rep in (1, 2):
+                rates = rxn.rate(variables, backend=np)
+                for s in sorted(set(reac) | set(prod)):
+                    want = k1 * cp * (prod.get(s, 0) - reac.get(s, 0))
+                    got = np.asarray(getattr(rates[s], 'magnitude', rates[s]), dtype=float) * np.ones(3)
+                    if not all(close(g, w, 1e-9, 1e-300) for g, w in zip(got, want)):
+                        return 'evaluation %d of Reaction(%r, %r, %r).rate(arrays)[%s] = %r, expected %r' % (rep, reac, prod, par1, s, got.tolist(), want.tolist())
+                for s in SUBST:
+                    if not np.array_equal(arr[s], keep[s]):
+                        return ('Reaction(%r, %r, ...).rate(variables, backend=numpy) modified its input variables[%r]: %r -> %r'
+                                % (reac, prod, s, keep[s].tolist(), arr[s].tolist()))
+            # (2) unit-carrying concentrations, the same rate expression evaluated twice
+            ratex = rxn.rate_expr()
+            vq = {s: c['conc'][s] * u.molar for s in SUBST}
+            vq['temperature'] = T
+            order = sum(reac.values())
+            unit = u.molar ** order if c['which'] == 'arrhenius' else u.molar
+            cpf = 1.0
+            for s, v in reac.items():
+                cpf *= c['conc'][s] ** v
+            for rep in (1, 2):
+                val = float(to_unitless(ratex(vq, backend=math, reaction=rxn), unit))
+                if not close(val, k1 * cpf, 1e-9):
+                    return 'evaluation %d of %r with unit-carrying concentrations = %r, expected %r' % (rep, ratex, val, k1 * cpf)
+                for s in SUBST:
+                    if not close(float(to_unitless(vq[s], u.molar)), c['conc'][s], 1e-12):
+                        return 'evaluating %r modified its input variables[%r]: now %s, was %r molar' % (ratex, s, vq[s], c['conc'][s])
+            # (3) two reactions of one system sharing the first reactant (Arrhenius only: Eyring's default conc0 = 1 molar makes
+            #     rates of reactions of different order carry different units)
+            if c['which'] != 'arrhenius':
+                return None
+            first = next(iter(reac))
+            other = 'C' if 'C' not in reac else 'B'
+            r2 = Reaction({first: 1, other: 1}, {'D': 1}, par2)
+            rsys = ReactionSystem([rxn, r2], 'A B C D')
+            arr = {s: c['conc'].get(s, 0.3) * mult for s in 'ABC'}
+            arr['D'] = np.zeros(3)
+            variables = dict(arr, temperature=T)
+            q1 = k1 * cp
+            q2 = k2 * (c['conc'][first] * mult) * (c['conc'][other] * mult)
+            res = rsys.rates(variables, backend=np)
+            for s in 'ABCD':
+                want = q1 * (prod.get(s, 0) - reac.get(s, 0)) + q2 * ((1 if s == 'D' else 0) - (1 if s in (first, other) else 0))
+                r_s = res.get(s, 0.0)            # a substance that takes part in no reaction may be absent (= 0)
+                got = np.asarray(getattr(r_s, 'magnitude', r_s), dtype=float) * np.ones(3)
+                if not all(close(g, w, 1e-9, 1e-290) for g, w in zip(got, want)):
+                    return ('ReactionSystem([%s, %s]).rates(arrays)[%s] = %r, expected the sum of k(T)*prod*net over both reactions %r'
+                            % (rxn, r2, s, got.tolist(), want.tolist()))
+        except Exception as e:
+            return 'mutable-input check raised %s: %s' % (exc_name(e), str(e)[:120])
         return None
 
     def _oracle_tree(self, c):
@@ -1069,6 +1261,23 @@ class C16(Property):
         except Exception as e:
             return 'building the expression raised %s although its arithmetic meaning is %r' % (exc_name(e), want)
         import numpy as np
+        if isinstance(rxn, list) and self._dropped_rxn(c['prog']):
+            # classes made by Expr.from_callback, GibbsEqConst, EyringHS, Radiolytic do not forward `reaction=` to their
+            # arguments: a nested MassAction / Eyring is rejected -- the rejection has to be the same under every backend
+            import sympy
+            outs = {}
+            for name, be in (('math', math), ('numpy', np), ('sympy', sympy)):
+                vv = vars_ if name != 'sympy' else {n: sympy.Symbol('v_' + n, real=True) for n in vars_}
+                try:
+                    with np.errstate(all='ignore'):
+                        real.call(obj, vv, rxn, be)
+                    outs[name] = 'value'
+                except Exception as e:
+                    outs[name] = exc_name(e)
+            if len(set(outs.values())) > 1:
+                return 'nested reaction-dependent argument: backends disagree about the rejection: %r' % outs
+            if outs['math'] != 'value':
+                return None
         for name, be in (('math', math), ('numpy', np)):
             try:
                 with np.errstate(all='ignore'):
@@ -1338,6 +1547,8 @@ class C16(Property):
             return 'param:' + c['which']
         if k == 'units':
             return 'units:' + c['tmpl']
+        if k == 'ubackend':
+            return 'ubackend:%s:%s' % (c['tmpl'], c['energy_unit'])
         return 'rxnrate:' + c.get('which', '?')
 
     def extra_search(self, rng, tier, hints):
